@@ -17,11 +17,12 @@ type c01Case struct {
 	monTr  string
 	canon  string
 	hostRx []byte
+	hangup bool
 }
 
 func (c *c01Case) replay() string {
 	var sb strings.Builder
-	fmt.Fprintf(&sb, "cfg: %s\nshape: %s\nrequests (one transport read each):\n", c.cfg.oracleArgs(), c.shape)
+	fmt.Fprintf(&sb, "cfg: %s\nshape: %s\nhost hangs up right after accepting: %v\nrequests (one transport read each):\n", c.cfg.oracleArgs(), c.shape, c.hangup)
 	for i, r := range c.reads {
 		fmt.Fprintf(&sb, "  %2d %-10s %s\n", i, c.kinds[i], hx(r))
 	}
@@ -104,7 +105,7 @@ func runC01(r *Run) {
 	for i := 0; i < nRand; i++ {
 		cfg := g.cfg()
 		steps, shape := g.history(cfg)
-		c := &c01Case{cfg: cfg, shape: shape}
+		c := &c01Case{cfg: cfg, shape: shape, hangup: i%5 == 4}
 		for _, st := range steps {
 			c.reads = append(c.reads, st.pkt)
 			c.kinds = append(c.kinds, st.kind)
@@ -115,6 +116,10 @@ func runC01(r *Run) {
 	// run the implementation
 	var lines []string
 	for _, c := range cases {
+		// a host that hangs up at once (before sending a byte): the tunnel still gets one connection
+		for _, l := range listeners {
+			l.hangup = c.hangup
+		}
 		c.ir = runProcess(c.cfg, c.reads, listeners)
 		if c.ir.timedOut {
 			r.Violation("c01-hang", "packet loop did not return within 20 s", c.replay())
@@ -161,7 +166,7 @@ func runC01(r *Run) {
 			r.Violation("c01-monitor", "implementation trace rejected by the C01 monitor: "+ans[2*i+1], c.replay()+"model trace: "+m["trace"]+"\n")
 			continue
 		}
-		if mcanon != c.canon || !bytes.Equal(up, c.hostRx) {
+		if mcanon != c.canon || (!c.hangup && !bytes.Equal(up, c.hostRx)) {
 			drift++
 			if firstDrift == "" {
 				firstDrift = c.replay() + "model trace (observable part): " + mcanon + "\nmodel bytes to host: " + hx(up) + "\nimpl bytes at hosts:  " + hx(c.hostRx) + "\n"
